@@ -211,6 +211,24 @@ def lexical_obligations(run, lexmod):
     else:
         run.failed('lex.number', 'E3/charclass', bad, dict(literal=bad), observed='t_NUMBER and the ES5 NumericLiteral grammar disagree on %r' % bad,
                    required='7.8.3', replayed=True)
+    # regular expression literals (7.8.5): exhaustive short strings on the real compiled pattern
+    rrx = re.compile(Lexer.t_regex_REGEX, re.VERBOSE)
+    ralpha = ['/', 'a', '\\', '[', ']', '\n', '\u2028', '*', 'g', '\r']
+    bad = None
+    n = 0
+    for L in range(0, 7):
+        for t in itertools.product(ralpha, repeat=L):
+            s_ = ''.join(t)
+            n += 1
+            if (rrx.fullmatch(s_) is not None) != es5_lexical.is_regex_literal(s_):
+                bad = s_ if bad is None or len(s_) < len(bad) else bad
+    if bad is None:
+        run.discharged('lex.regex_literal', 'E3/charclass', 'exhaustive', 0.0,
+                       detail='t_regex_REGEX = RegularExpressionLiteral on all %d strings of length <= 6 over %r' % (n, ralpha))
+    else:
+        why = 't_regex_REGEX %s %r, the ES5 RegularExpressionLiteral grammar %s' % (
+            'accepts' if rrx.fullmatch(bad) else 'rejects', bad, 'does not derive it' if rrx.fullmatch(bad) else 'derives it')
+        run.failed('lex.regex_literal', 'E3/charclass', bad, dict(literal=bad), observed=why, required='7.8.5', replayed=True)
     sets = cc.es5_sets()
     ident = re.compile(Lexer.identifier)
     start = cc.from_regex(ident)
@@ -239,6 +257,14 @@ def lexical_obligations(run, lexmod):
         else:
             run.failed(nm, 'E3/charclass', what, dict(text=text), observed='%r is not one identifier for the lexer' % text,
                        required=what + ' (7.6)', replayed=True)
+    part = cc.from_pred(lambda cp: ident.fullmatch('a' + chr(cp)) is not None)
+    x = cc.intersect(cc.union(part, start), cc.union(sets['WhiteSpace'], sets['LineTerminator']))
+    if not x:
+        run.discharged('lex.identifier_disjoint_separators', 'E3/charclass', 'intervals', 0.0)
+    else:
+        why = 'identifier characters of the lexer that are ES5 white space / line terminators: {%s}' % cc.show(x)
+        run.failed('lex.identifier_disjoint_separators', 'E3/charclass', 'a%sb' % chr(x[0][0]), dict(chars=cc.show(x)), observed=why,
+                   required='WhiteSpace and LineTerminator separate tokens (7.2, 7.3); no Unicode version makes them IdentifierPart', replayed=True)
     extra = cc.minus(start, sets['IdentifierStart'])
     run.notes.append('identifier start characters of the lexer outside Unicode %s letters: {%s} (re-categorised since the table was built; '
                      'not an obligation: ES5 allows any Unicode version >= 3.0)' % (sets['unicode_version'], cc.show(extra, 4)))
